@@ -129,7 +129,8 @@ impl Sim {
         }
         names.denoms.push("TOKEN".to_string());
         for i in 1..n_den {
-            names.denoms.push(format!("denom{}", i));
+            // the third denomination differs from the second one only in the case of its letters
+            names.denoms.push(if i == 2 { "DENOM1".to_string() } else { format!("denom{}", i) });
         }
         for i in 0..n_val {
             names.validators.push(api.addr_make(&format!("validator{}", i)).to_string());
@@ -501,6 +502,18 @@ impl Sim {
                 props.extend_from_slice(extra_props);
                 if self.model.faults.keys().any(|k| k.starts_with("malformed_response")) {
                     props.push("C13");
+                }
+                // what made the call fail names the statement whose "fails without effect / aborts" clause this is
+                let rc = self.model.root_cause().unwrap_or("").to_string();
+                if rc == "not_admin" {
+                    props.push("C12");
+                }
+                if rc.starts_with("failing_module:") || rc.starts_with("module_reject:") || rc.starts_with("bank_") || rc == "staking_invalid" || rc == "funds_transfer_failed" {
+                    // the failure of a module (the bank and staking modules included) did not abort the transaction
+                    props.push("C17");
+                }
+                if matches!(rc.as_str(), "duplicate_address" | "duplicate_salt" | "unknown_code_id" | "bad_salt_length") && !props.contains(&"C11") {
+                    props.push("C11");
                 }
                 self.v(&props, "err_but_state_changed", format!("{}: returned Err but the root store changed: {}", what, d));
             }
